@@ -43,7 +43,26 @@ type jop struct {
 	Vec   bool     `json:"vec,omitempty"`
 	I     uint64   `json:"i,omitempty"` // vector index
 	N     uint64   `json:"n,omitempty"` // uint64 value
+	// bbulk: a large batch given by a descriptor (see bulkOp); Ix / Ix2 are the two indexes
+	Ix2    string `json:"ix2,omitempty"`
+	Count  uint64 `json:"count,omitempty"`
+	NKeys  uint64 `json:"nkeys,omitempty"`
+	Stride uint64 `json:"stride,omitempty"`
+	Off    uint64 `json:"off,omitempty"`
 }
+
+// bulkOp expands the descriptor of a large batch: the n-th operation goes to index Ix (n even) or
+// Ix2 (n odd), on the 2-byte key number (n*Stride+Off) mod NKeys; every third one is a delete, the
+// others put the 2-byte value {n mod 256, n/256 mod 256}. Same definition as Model.bulk_write.
+func bulkOp(o jop, n uint64) (ix string, key, val []byte, del bool) {
+	j := (n*o.Stride + o.Off) % o.NKeys
+	ix = o.Ix
+	if n%2 == 1 {
+		ix = o.Ix2
+	}
+	return ix, []byte{byte(j / 256), byte(j % 256)}, []byte{byte(n % 256), byte(n / 256 % 256)}, n%3 == 2
+}
+
 type jcase struct {
 	Ops []jop `json:"ops"`
 }
@@ -436,6 +455,21 @@ func (e *env) apply(o jop) (ob obsT) {
 			ob = errObs(ix.PutInBatch(e.batch, itemOf(kind, k, v)))
 		case "bdelete":
 			ob = errObs(ix.DeleteInBatch(e.batch, itemOf(kind, k, nil)))
+		case "bbulk":
+			for n := uint64(0); n < o.Count; n++ {
+				bix, bk, bv, del := bulkOp(o, n)
+				var err error
+				if del {
+					err = e.idx[bix].DeleteInBatch(e.batch, itemOf(kindOf(bix), bk, nil))
+				} else {
+					err = e.idx[bix].PutInBatch(e.batch, itemOf(kindOf(bix), bk, bv))
+				}
+				if err != nil {
+					ob = obsT{"BStuck", "error:" + err.Error()}
+					return
+				}
+			}
+			ob = obsT{"BOk", "ok"}
 		case "bcommit":
 			ob = errObs(e.batch.Commit())
 		case "fget":
@@ -573,6 +607,8 @@ func (e *env) coqOp(o jop) string {
 		return hx.CoqApp("OBDelete", i, k)
 	case "bcommit":
 		return "OBCommit"
+	case "bbulk":
+		return hx.CoqApp("OBBulk", i, hx.CoqN(uint64(e.prefix[o.Ix2])), hx.CoqN(o.Count), hx.CoqN(o.NKeys), hx.CoqN(o.Stride), hx.CoqN(o.Off))
 	case "fget":
 		return hx.CoqApp("OFGet", fk)
 	case "fput":
@@ -676,6 +712,12 @@ func (r *ref) expected(o jop) (want string, class string) {
 	case "bdelete":
 		r.batch = append(r.batch, refWrite{ix: o.Ix, k: string(k), del: true})
 		return "ok", "batch-delete"
+	case "bbulk":
+		for n := uint64(0); n < o.Count; n++ {
+			bix, bk, bv, del := bulkOp(o, n)
+			r.batch = append(r.batch, refWrite{ix: bix, k: string(bk), v: bv, del: del})
+		}
+		return "ok", "batch-bulk"
 	case "batchnew":
 		r.batch = nil
 	case "reopen":
@@ -1165,12 +1207,56 @@ func corpus() [][]jop {
 			// and once more in a second batch on the now committed keys
 			jop{Op: "batchnew"}, bp("raw-a", "u", "9"), bd("raw-a", "u"), bd("raw-a", "w"), bp("raw-a", "w", "3"), jop{Op: "bcommit"},
 			gt("raw-a", "u"), gt("raw-a", "w"), jop{Op: "iter", Ix: "raw-a"}),
+		// LARGE batches (5000 and 9000 operations over 300 / 700 keys of two indexes): nothing is visible
+		// before the commit however large the batch is, everything after it
+		largeBatch(5000, 300, 7, 0, false),
+		largeBatch(9000, 700, 11, 5, false),
+		// a large uncommitted batch is dropped entirely by close + reopen
+		largeBatch(9000, 300, 7, 3, true),
 		// fields: wrap-around, floor at zero, batch reads the committed value, reopen
 		{ni("raw-a"), jop{Op: "fget", F: hexs([]byte("fa"))}, jop{Op: "fdec", F: hexs([]byte("fa"))}, jop{Op: "fput", F: hexs([]byte("fa")), N: ^uint64(0)}, jop{Op: "finc", F: hexs([]byte("fa"))},
 			jop{Op: "fincb", F: hexs([]byte("fa"))}, jop{Op: "fincb", F: hexs([]byte("fa"))}, jop{Op: "fget", F: hexs([]byte("fa"))}, jop{Op: "bcommit"}, jop{Op: "fget", F: hexs([]byte("fa"))},
 			jop{Op: "fput", F: hexs([]byte("va")), Vec: true, I: 256, N: 9}, jop{Op: "fget", F: hexs([]byte("va")), Vec: true, I: 1}, jop{Op: "fget", F: hexs([]byte("va")), Vec: true, I: 256},
 			jop{Op: "sput", F: hexs([]byte("sa")), V: hexs([]byte("hello"))}, jop{Op: "reopen"}, jop{Op: "sget", F: hexs([]byte("sa"))}, jop{Op: "fget", F: hexs([]byte("va")), Vec: true, I: 256}, jop{Op: "fget", F: hexs([]byte("fa"))}},
 	}
+}
+
+func key2(j uint64) string { return hexs([]byte{byte(j / 256), byte(j % 256)}) }
+
+// bulkReads: lookups, counts and iterations over the two indexes a large batch writes to
+func bulkReads(r *hx.Rand, nkeys uint64) []jop {
+	ks := []uint64{0, 1, 2, 5, nkeys / 2, nkeys - 1, nkeys}
+	if r != nil {
+		ks = append(ks, uint64(r.Intn(int(nkeys))), uint64(r.Intn(int(nkeys))))
+	}
+	var g []jop
+	for _, ix := range []string{"raw-a", "raw-d"} {
+		var multi []string
+		for _, j := range ks {
+			multi = append(multi, key2(j))
+		}
+		g = append(g, jop{Op: "get", Ix: ix, K: key2(ks[1])}, jop{Op: "get", Ix: ix, K: key2(ks[4])}, jop{Op: "has", Ix: ix, K: key2(ks[5])},
+			jop{Op: "hasmulti", Ix: ix, Ks: multi}, jop{Op: "count", Ix: ix}, jop{Op: "first", Ix: ix}, jop{Op: "last", Ix: ix})
+	}
+	return append(g, jop{Op: "iter", Ix: "raw-a"}, jop{Op: "iter", Ix: "raw-d", Rev: true, Cb: &jcb{Kind: "at", N: 9, Stop: true}})
+}
+
+// largeBatch: a few stored keys, a large batch, reads BEFORE the commit, then either commit + reads,
+// or reopen (the batch is dropped) + reads + a small committed batch
+func largeBatch(count, nkeys, stride, off uint64, reopen bool) []jop {
+	h := []jop{{Op: "newindex", Ix: "raw-a"}, {Op: "newindex", Ix: "raw-d"},
+		{Op: "put", Ix: "raw-a", K: key2(1), V: hexs([]byte("old"))}, {Op: "put", Ix: "raw-d", K: key2(nkeys / 2), V: hexs([]byte("old"))},
+		{Op: "put", Ix: "raw-a", K: key2(nkeys + 7), V: hexs([]byte("keep"))}, {Op: "batchnew"},
+		{Op: "bbulk", Ix: "raw-a", Ix2: "raw-d", Count: count, NKeys: nkeys, Stride: stride, Off: off}}
+	h = append(h, bulkReads(nil, nkeys)...)
+	if reopen {
+		h = append(h, jop{Op: "reopen"})
+		h = append(h, bulkReads(nil, nkeys)...)
+		h = append(h, jop{Op: "bbulk", Ix: "raw-d", Ix2: "raw-a", Count: 10, NKeys: nkeys, Stride: 1, Off: 0}, jop{Op: "bcommit"})
+	} else {
+		h = append(h, jop{Op: "bcommit"})
+	}
+	return append(h, bulkReads(nil, nkeys)...)
 }
 
 // names that alias: a string field whose name is a vector's name followed by the 8 bytes of a slot
@@ -1183,7 +1269,7 @@ func aliasCorpus() []jop {
 func main() {
 	shed.Register("leveldb", sldb.Driver{})
 	run := hx.Start("C19", "Aurora.C19.Corr",
-		"histories over 2-4 indexes with three key encodings (raw variable-length keys incl. empty / 0x00 / 0xff runs, 8-byte big-endian ids, 8-byte timestamp ++ address) mixing put/delete/get/has/hasMulti/fill/first/last/count/countFrom, iterate with every combination of prefix, present or absent start item, skip-start, reverse and stopping/failing callbacks, batched writes with commit / re-commit / discard, batches writing the same stored or unstored key several times (put-delete, delete-put, put-put, …), uint64 fields, vectors, string fields, and close+reopen on disk; non-trivial = some iteration visited at least two items; distinct by operation list")
+		"histories over 2-4 indexes with three key encodings (raw variable-length keys incl. empty / 0x00 / 0xff runs, 8-byte big-endian ids, 8-byte timestamp ++ address) mixing put/delete/get/has/hasMulti/fill/first/last/count/countFrom, iterate with every combination of prefix, present or absent start item, skip-start, reverse and stopping/failing callbacks, batched writes with commit / re-commit / discard, batches writing the same stored or unstored key several times (put-delete, delete-put, put-put, …), LARGE batches of 4095..9000 operations over a few hundred keys of two indexes read before and after the commit / dropped by a reopen, uint64 fields, vectors, string fields, and close+reopen on disk; non-trivial = some iteration visited at least two items; distinct by operation list")
 	r := run.R
 
 	if run.Replay != "" {
@@ -1210,6 +1296,15 @@ func main() {
 	nh := run.N(110, 1500)
 	for i := 0; i < nh; i++ {
 		g := r.Fork(uint64(i))
+		if i%12 == 7 {
+			// a large batch around the sizes 4095 / 4096 / 4097 / 8192 / …, random key pool and stride
+			count := []uint64{4095, 4096, 4097, 5000, 8191, 8192, 8193, 6000}[g.Intn(8)]
+			nkeys := uint64(50 + g.Intn(400))
+			h := largeBatch(count, nkeys, uint64(1+g.Intn(20)), uint64(g.Intn(int(nkeys))), i%24 == 19)
+			run.Hist("large-batch")
+			runHistory(run, h, true)
+			continue
+		}
 		runHistory(run, genHistory(g, 12+g.Intn(run.N(30, 50)), i%4 == 3), true)
 	}
 	run.Finish()
